@@ -312,3 +312,20 @@ func VP_C08_arbitrary_stream() {
 		off += size
 	}
 }
+
+
+//vp:property C08 C11
+//vp:bounds a handshake request that arrives in two reads (cut after byte 1..13), then the client stays silent for longer than any timeout the gateway may have armed, then it sends its tunnel-create
+//vp:assume the transport model honours a read deadline if the code sets one (the unchanged code sets none)
+//vp:reach answered
+func VP_C08_pause_after_a_split_packet() {
+	vpResetC01()
+	hs := vpPacket(PKT_TYPE_HANDSHAKE_REQUEST, []byte{1, 0, 0, 0, 0, 0})
+	cut := vpIntRange("cut", 1, len(hs)-1)
+	tr := &vpTransport{in: [][]byte{hs[:cut], hs[cut:], vpSetupPacket(1)}}
+	tr.pauseAt = 3
+	tun := &Tunnel{transportIn: tr, transportOut: tr, User: vpUser()}
+	NewProcessor(&Gateway{}, tun).Process(vpCtx())
+	vpReach("answered")
+	vpAssert(len(tr.out) == 2 && vpLE16(tr.out[0], 0) == 2 && vpLE16(tr.out[1], 0) == 5, "a-packet-that-came-in-pieces-does-not-shorten-the-life-of-the-tunnel")
+}
